@@ -477,6 +477,10 @@ func runOpsimWL(e *Env) {
 					if wl.Bias(1, 3) {
 						simrt.Sleep(time.Duration(1+wl.Choose(6)) * 150 * time.Millisecond)
 					}
+					if opts.FailPct > 0 && wl.Bias(1, 6) {
+						// outlast a back-off: some changes happen after a failed execution has been retried
+						simrt.Sleep(time.Duration(4+wl.Choose(8)) * time.Second)
+					}
 					if opts.NsDynamic && wl.Bias(1, 12) {
 						if api.Get(gvrNS, "", "nsb") == nil {
 							api.ApplyNamespace("nsb", map[string]string{"env": "prod"})
